@@ -322,7 +322,8 @@ class C14(World):
                 if k == "read":
                     op["names"] = rng.sample(cfg["reads"], min(len(cfg["reads"]), rng.randint(1, 4)))
                 if k == "transform":
-                    op["cls"] = rng.choice(["translation", "rigid", "similarity", "mirror", "uniform_scale", "aniso"])
+                    op["cls"] = rng.choice(["translation", "rigid", "similarity", "mirror", "uniform_scale", "aniso", "shrink"])
+                    op["tiny"] = rng.choice([4e-5, 1e-5, 3e-4])
                     op.update({"theta": round(rng.uniform(0.2, 2.9), 4), "s": round(rng.choice([rng.uniform(0.4, 0.8), rng.uniform(1.3, 2.5)]), 3), "s2": round(rng.uniform(1.4, 2.2), 3), "t": [round(rng.uniform(-2, 2), 3), round(rng.uniform(-2, 2), 3)]})
                 if k == "roundtrip":
                     op["fmt"] = rng.choice(["dxf", "svg", "dict"])
@@ -344,6 +345,9 @@ class C14(World):
             A = s * R
         elif cls == "uniform_scale":
             A = s * np.eye(2)
+        elif cls == "shrink":
+            # a drawing in other units: a similarity all the same (absolute tolerances must not eat it)
+            A = float(op.get("tiny", 4e-5)) * R
         elif cls == "mirror":
             A = R @ np.diag([1.0, -1.0])
         else:
@@ -392,6 +396,7 @@ class C14(World):
                         # made (and memoised) but judged only after merge_vertices / process has joined it
                         state["unmerged"] = bool(op["dup_vertices"]) and not bool(op["process"])
                     M_total = np.eye(3)
+                    state["shrunk"] = False
                     state["pieces"] = 1 if op.get("via") == "dxf_bulge" else int(op.get("arc_pieces", 1))
                     state["pclass"] = ("dxfbulge-" if op.get("via") == "dxf_bulge" else "") + f"mid{op.get('arc_mid', 0.5)}-split{op['max_split']}-perm{int(op['permute'])}-rev{op['reverse_p']}-dup{int(op['dup_vertices'])}-proc{int(op['process'])}"
                     state["last"] = "present"
@@ -402,6 +407,8 @@ class C14(World):
                 if path is None:
                     raise Inapplicable()
                 memo = set(path._cache.cache.keys())
+                if state.get("shrunk") and k in ("merge_vertices", "process", "roundtrip", "reverse_entity"):
+                    raise Inapplicable()
                 if k == "read":
                     self._check_all(path, curves, M_total, state, first, ctx, op["names"])
                 elif k == "read_all":
@@ -411,7 +418,11 @@ class C14(World):
                         state["last"] = "process" if op["rs"] % 2 else "merge_vertices"
                     self._check_all(path, curves, M_total, state, first, ctx, READS)
                 elif k == "transform":
+                    if state.get("shrunk") or (op["cls"] == "shrink" and (state.get("imported") or state.get("unmerged"))):
+                        raise Inapplicable()
                     M = self._matrix(op, state["polygonal"])
+                    if op["cls"] == "shrink":
+                        state["shrunk"] = True
                     path.apply_transform(M)
                     M_total = M @ M_total
                     state["last"] = "transform:" + op["cls"]
@@ -530,6 +541,8 @@ class C14(World):
         det = abs(mv["det"])
         sfac = math.sqrt(det)
         S = max(1.0, float(np.abs(np.asarray(path.vertices)).max()))
+        if state.get("shrunk"):
+            S = float(np.abs(np.asarray(path.vertices)).max())  # judged relative to the size of the drawing
         n_curves, n_shells = mv["n_curves"], mv["n_shells"]
         for n in names:
             ctx.count("check:" + n)
